@@ -389,6 +389,8 @@ def crop_f64(rep, prog, rule):
                                     okk = True
                             elif rs[0] == "call" and rs[1] in ("width", "height"):
                                 cross = rs[1]
+                            else:
+                                other.setdefault(pos, []).append((("bin", o, l, r), v))
             if okk:
                 rep.ok(rule, key, f.loc, "crop_box.%s + crop_box.%s <= image %s" % (pos, size, getter))
             elif cross:
@@ -403,8 +405,16 @@ def crop_f64(rep, prog, rule):
 
 
 def _strip_all(e):
-    while isinstance(e, tuple) and e and e[0] == "cast":
-        e = e[2]
+    """drop casts and lossless conversion calls (f64::from(u32), .into())"""
+    while isinstance(e, tuple) and e:
+        if e[0] == "cast":
+            e = e[2]
+        elif e[0] == "call" and e[1] in ("from", "into") and len(e[2]) == 1:
+            e = e[2][0]
+        elif e[0] == "callat" and e[2] in ("from", "into") and len(e[3]) == 1:
+            e = e[3][0]
+        else:
+            break
     return e
 
 
@@ -624,6 +634,64 @@ def predicate_parts(prog, e):
         for cond, val in gs.facts_at(bb):
             out.append(subst(cond, mapping))
     return out
+
+
+def alternatives_when(prog, e, val):
+    """one set of facts (cond, bool) per path on which the crate-local bool call e returns `val`
+    (the switch edges taken + the returned expression == val), arguments substituted; None when
+    e is not such a call or the callee has loops / too many paths"""
+    g, args = _callee_of(prog, e)
+    if g is None:
+        return None
+    gs = Sym(g)
+    mapping = {("param", i + 1, g.local_name(i + 1)): a for i, a in enumerate(args)}
+    edge = {}
+    for (p_, s_, cond, v) in gs.edge_facts():
+        edge.setdefault((p_, s_), []).append((cond, v))
+    alts = []
+    paths = [0]
+
+    def value_at(path):
+        """the value assigned to _0 along the path (last assignment wins)"""
+        last = None
+        on = set(path)
+        for (bb, j, rv, w) in g.defs().get(0, []):
+            if bb in on:
+                k = path.index(bb)
+                if last is None or k >= last[0]:
+                    last = (k, gs.rvalue(rv, bb, (bb, j)))
+        return last[1] if last else None
+
+    def walk(b, path, facts):
+        if paths[0] > 64 or b in path:
+            paths[0] = 10 ** 6
+            return
+        path = path + [b]
+        blk = g.blocks[b]
+        if blk["c"]:
+            return
+        t_ = blk["t"]
+        if t_ and t_[0] == "ret":
+            paths[0] += 1
+            r = value_at(path)
+            if r is None:
+                paths[0] = 10 ** 6
+                return
+            fs = set(facts)
+            if r[0] == "const" and isinstance(r[1], bool):
+                if r[1] != val:
+                    return
+            else:
+                fs.add((subst(r, mapping), val))
+            alts.append(fs)
+            return
+        for s_ in g.succ[b]:
+            extra = [(subst(c_, mapping), v_) for c_, v_ in edge.get((b, s_), []) if isinstance(v_, bool)]
+            walk(s_, path, facts + extra)
+    walk(0, [], [])
+    if paths[0] >= 10 ** 6:
+        return None
+    return alts
 
 
 def implied_when(prog, e, val):
